@@ -301,6 +301,11 @@ func (wtr *JSONWtr) writeValue(p *node.Path, v val.Value) error {
 					return err
 				}
 			}
+		case val.FmtEmpty:
+			// RFC 7951 6.9
+			if _, err := wtr._out.WriteString("[null]"); err != nil {
+				return err
+			}
 		case val.FmtDecimal64:
 			f := item.Value().(float64)
 			if _, err := wtr._out.WriteString(strconv.FormatFloat(f, 'f', -1, 64)); err != nil {
